@@ -32,17 +32,17 @@ META.update({
         technique="property-based testing (rapid): differential testing against the sequential composition model, fallback-focused generator profile",
     ),
     "C11": dict(
-        text="Model-based property testing of the cache policy over generated histories: one or two cache policies share an instrumented cache; configured and context keys, CacheIf conditions, pre-populated content, direct writes/deletes and stateful policies inside the cache are generated; compared after every step: every Get/Set the policy issued, the full cache content, the returned outcome, and the state and every listener of the policies inside (which must not move on a hit). Sampling, not proof.",
+        text="Model-based property testing of the cache policy over generated histories: one or two cache policies share an instrumented cache; configured and context keys, CacheIf conditions, pre-populated content, direct writes/deletes and stateful policies inside the cache are generated; compared after every step: every Get/Set the policy issued, the full cache content, the returned outcome, and the state and every listener of the policies inside (which must not move on a hit). A second test overlaps executions with different keys inside one cache policy (parked in the function, completed in a generated order): every result must be stored under the key of the execution that produced it. Sampling, not proof.",
         design_ref="DESIGN.md section 6, C11", note=_COMPOSE_NOTE,
         technique="property-based testing (rapid): stateful model-based testing (model map in lock-step with an instrumented cache) over generated histories",
     ),
     "C16": dict(
-        text="Model-based property testing of every listener: all listeners of all eight builders and of the executor are registered into one recorder; the reference model predicts, per execution, each listener's call sequence with its result payload; the recorded calls are compared per listener, plus causal-order invariants (OnRetryScheduled before its OnRetry, OnDone last) and connected breaker state paths with matching specific/generic listeners. Sampling, not proof.",
+        text="Model-based property testing of every listener: all listeners of all eight builders and of the executor are registered into one recorder; the reference model predicts, per execution, each listener's call sequence with its result payload; the recorded calls are compared per listener, plus causal-order invariants (OnRetryScheduled before its OnRetry, OnDone last) and connected breaker state paths with matching specific/generic listeners. Three further tests: concurrent executions sharing one executor and its listeners (each execution's events, attributed through the context, must equal the model's prediction for its own script); executions cancelled while they wait an hour for a bulkhead permit, a limiter permit or a retry delay (rejection / retry / exhaustion listeners must stay silent); goroutines hammering one breaker (the totally ordered listener calls must form a connected path with paired generic/specific calls on every schedule). Sampling, not proof.",
         design_ref="DESIGN.md section 6, C16", note=_COMPOSE_NOTE,
         technique="property-based testing (rapid): predicted event multiset per listener from the sequential composition model + order invariants over the recorded log",
     ),
     "C17": dict(
-        text="Model-based property testing of the execution statistics: at every observation point (function entry, every listener, fallback functions, completion events) Attempts/Executions/Retries/Hedges, IsFirstAttempt/IsRetry/IsHedge and LastResult/LastError are compared with the reference model's prediction, and invariants over the recorded log are checked (Attempts == 1 + Retries + Hedges, constant StartTime, monotone elapsed and attempt start times). Hedged (overlapping) executions are checked by the C09 harness. Sampling, not proof.",
+        text="Model-based property testing of the execution statistics: at every observation point (function entry, every listener, fallback functions, completion events) Attempts/Executions/Retries/Hedges, IsFirstAttempt/IsRetry/IsHedge and LastResult/LastError are compared with the reference model's prediction, and invariants over the recorded log are checked (Attempts == 1 + Retries + Hedges, constant StartTime, monotone elapsed and attempt start times). Hedged executions are checked with the C09 harness (counter bounds while attempts overlap, exact values at quiescence), retried hedged rounds must show Retries() == round-1 at every entry, and an attempt's view of the last result must not change while it runs (read again after a Timeout cancelled it). Sampling, not proof.",
         design_ref="DESIGN.md section 6, C17", note=_COMPOSE_NOTE,
         technique="property-based testing (rapid): predicted observations from the sequential composition model + counter identities over the recorded log",
     ),
@@ -102,9 +102,9 @@ META.update({
 })
 META.update({
     "C15": dict(
-        text="Two generated-input checks. Differential (model-free): generated composition scenarios are run on fresh instances through the synchronous and through the asynchronous entry points and must return the same values, errors and invocation counts step by step. Protocol: every attempt is parked on a harness gate while up to 16 reader goroutines issue generated sequences of IsDone / Done / Get / Result / Error calls and the harness issues Cancel at generated points; a linearised log is judged: listeners precede anything that observed completion, Get/Result/Error never return before Done is closed, Done closed implies IsDone, all readers get identical values forever, values equal the sequential protocol, a Cancel that lands before completion under a retry or hedge policy yields ErrExecutionCanceled, Cancel after completion changes nothing. Sampling, not proof.",
+        text="Two generated-input checks. Differential (model-free): generated composition scenarios are run on fresh instances through the synchronous and through the asynchronous entry points and must return the same values, errors and invocation counts step by step. Protocol: every attempt is parked on a harness gate while up to 16 reader goroutines issue generated sequences of IsDone / Done / Get / Result / Error calls and the harness issues Cancel at generated points; a linearised log is judged: listeners precede anything that observed completion, Get/Result/Error never return before Done is closed, Done closed implies IsDone, all readers get identical values forever, values equal the sequential protocol, a Cancel that lands before completion under a retry or hedge policy yields ErrExecutionCanceled (also when an inner Timeout had just ended the attempt, and in batches of spin-timed Cancels against a zero-delay retry loop), Cancel after completion changes nothing. Sampling, not proof.",
         design_ref="DESIGN.md section 6, C15",
-        note="The harness owns the execution's progress (gated attempts); reader interleavings are sampled by the Go scheduler. The narrow Cancel-vs-retry-initialisation window (D2) is exercised by C08's spin trials.",
+        note="The harness owns the execution's progress (gated attempts); reader interleavings are sampled by the Go scheduler. The narrow Cancel-vs-retry-initialisation window (D2) is exercised by spin trials here and in C08.",
         technique="property-based testing (rapid): differential sync-vs-async runs of generated scenarios + generated reader/cancel programs against gated executions with history invariants",
     ),
 })
@@ -126,9 +126,9 @@ META.update({
 })
 META.update({
     "C18": dict(
-        text="Property testing of the HTTP and gRPC adapters against real loopback traffic and recording peers. HTTP: generated requests (method, URL, headers, every body kind an http.Request can carry, sizes up to 1 MiB), request and executor context kinds, policy stacks (the package's retry policy, timeout, hedge with and without overlapping attempts, breaker, fallback), both entry points, and a scripted server answer per attempt (statuses, Retry-After, early / chunked / truncated responses, closed connections, a caller that cancels mid-response); the oracle compares every request the server received with the original, the number of attempts with the documented retry rules, Retry-After as a lower bound, the returned response and its fully read body with what the server sent, and the context seen by an inner recording RoundTripper (caller's values and deadline present, done when the caller cancels). gRPC: both interceptors driven directly with recording invokers/handlers: arguments, reply and errors pass through, only UNAVAILABLE / DEADLINE_EXCEEDED / RESOURCE_EXHAUSTED are retried, the context carries the caller's values, deadline, outgoing/incoming metadata and cancellation. Sampling, not proof.",
-        design_ref="DESIGN.md section 6, C18",
-        note="One open finding (D9) is excluded by construction, counted, and reproduced separately. The inner transport disables keep-alives so that net/http's own transparent re-sends do not count as attempts. gRPC is exercised at the interceptor boundary, not over a network connection.",
+        text="Property testing of the HTTP and gRPC adapters against real loopback traffic and recording peers. HTTP: generated requests (method, URL, headers, every body kind an http.Request can carry, sizes up to 1 MiB), request and executor context kinds, policy stacks (the package's retry policy, timeout, hedge with and without overlapping attempts, breaker, fallback), both entry points, and a scripted server answer per attempt (statuses, Retry-After, early / chunked / truncated responses, closed connections, a caller that cancels mid-response); the oracle compares every request the server received with the original, the number of attempts with the documented retry rules, Retry-After as a lower bound, the returned response and its fully read body with what the server sent, and the context seen by an inner recording RoundTripper (caller's values and deadline present, done when the caller cancels). gRPC: both interceptors driven directly with recording invokers/handlers: arguments, reply and errors pass through, only UNAVAILABLE / DEADLINE_EXCEEDED / RESOURCE_EXHAUSTED are retried, the context carries the caller's values, deadline, outgoing/incoming metadata and cancellation; the same over a real ClientConn/Server pair on an in-memory connection, judged by what arrives on the wire. Sampling, not proof.",
+        design_ref="DESIGN.md sections 6 and 12, C18",
+        note="One open finding (D9) is excluded by construction, counted, and reproduced separately. The inner transport disables keep-alives so that net/http's own transparent re-sends do not count as attempts. gRPC is exercised at the interceptor boundary with recording peers and end to end over an in-memory connection (bufconn), not over TCP.",
         technique="property-based testing (rapid): round-trip / differential oracle (request received == request sent, response returned == response served) over generated requests, contexts, policy stacks and server scripts",
     ),
 })
